@@ -134,6 +134,20 @@ pub fn expect_hdr(region: &[u8]) -> Expected {
         } else {
             exp.u("w.count_after1", n.saturating_sub(1) as u64);
         }
+        if n >= 2 {
+            exp.is("w.clone_after1", Val::Ext(w.items[1].off, r8(w.items[1].size as usize)));
+        } else if w.panic_at.is_some() {
+            exp.panic("w.clone_after1");
+        } else {
+            exp.is("w.clone_after1", Val::None);
+        }
+        if w.panic_at.is_some() {
+            exp.panic("w.last");
+        } else if n == 0 {
+            exp.is("w.last", Val::None);
+        } else {
+            exp.is("w.last", Val::Ext(w.items[n - 1].off, r8(w.items[n - 1].size as usize)));
+        }
     }
     match w.panic_at {
         Some(k) => {
